@@ -420,7 +420,7 @@ def run(ck):
     # round trips
     corp = [s for s in chy.corpus() if len(s) < 70]
     special = ['[Na+].[Cl-]', '[Fe+3]', '[O-2]', '[Ti+4]', '[Si-4]', '[13CH4]', '[2H]O[2H]', 'C[CH2]', 'C[O]', 'F/C=C/F', 'F/C=C\\F', 'C[C@H](N)O', 'N[C@@H](C)C(=O)O',
-               'c1ccccc1', 'c1cc[nH]c1', 'C[Fe]C', 'C/C=C/C=C\\C', 'C[C@]1(F)CCCO1', 'FC(Cl)=[C@]=C(Br)I', '[235U]', 'C(=O)[O-].[NH4+]', 'CC(C)(C)c1ccc(O)cc1']
+               'c1ccccc1', 'c1cc[nH]c1', 'C[Fe]C', 'C/C=C/C=C\\C', 'COCCCCC(=NOCCN)c1ccc(cc1)C(F)(F)F', 'CC(C)=NO', 'CC=NO', 'C[C@]1(F)CCCO1', 'FC(Cl)=[C@]=C(Br)I', '[235U]', 'C(=O)[O-].[NH4+]', 'CC(C)(C)c1ccc(O)cc1']
     alpha = string.ascii_letters + string.digits + ' _.-+:;,()[]{}#%*/=?!@^~|'
     sel = chy.pick(corp, 60 if ck.quick else 800, ck.seed) + special
     cases = []
